@@ -200,17 +200,30 @@ func TestC19Binary(t *testing.T) {
 		if slow {
 			D = T * time.Duration(rapid.IntRange(3, 5).Draw(t, "factor"))
 		}
-		up := httptest.NewServer(http.HandlerFunc(func(w http.ResponseWriter, r *http.Request) {
+		handler := http.HandlerFunc(func(w http.ResponseWriter, r *http.Request) {
 			select {
 			case <-time.After(D):
 			case <-r.Context().Done():
 				return
 			}
 			io.WriteString(w, "upstream-body")
-		}))
+		})
+		// a route that is there when fabio starts and gets a transport of its own (host=<name> on an
+		// https upstream), or the default transport
+		perRoute := rapid.Bool().Draw(t, "per-route-transport")
+		var up *httptest.Server
+		if perRoute {
+			up = httptest.NewTLSServer(handler)
+		} else {
+			up = httptest.NewServer(handler)
+		}
 		defer up.Close()
 		addr := freeAddr()
 		args := baseOptions(up.URL, addr)
+		if perRoute {
+			args[1] = "-registry.static.routes=route add svc / " + up.URL + ` opts "host=internal.example tlsskipverify=true"`
+			hx.Class("binary:per-route-transport-of-a-start-up-route")
+		}
 		var env, file []string
 		src := option(t, "proxy.responseheadertimeout", T.String(), &args, &env, &file)
 		option(t, "proxy.dialtimeout", "5s", &args, &env, &file)
@@ -225,7 +238,7 @@ func TestC19Binary(t *testing.T) {
 		}
 		body, _ := io.ReadAll(resp.Body)
 		resp.Body.Close()
-		ctx := fmt.Sprintf("proxy.responseheadertimeout=%v (from %s), upstream delay %v", T, src, D)
+		ctx := fmt.Sprintf("proxy.responseheadertimeout=%v (from %s), upstream delay %v, route present at start-up with its own transport (host= on https): %v", T, src, D, perRoute)
 		if slow {
 			if resp.StatusCode != 504 {
 				t.Fatalf("the binary answered %d after %v, want 504 after about %v\n%s", resp.StatusCode, took, T, ctx)
